@@ -54,6 +54,23 @@ def classify_hit(h, idx):
                                           "broadcaster (or for none): a fully signed message re-sent by another member is delivered as that member's"
                                           % (m.group(2), q, m.group(4), m.group(5)))
         return "delivery-monitor", "a delivery without a sign event of every honest member for exactly (session, sender, id, payload), or a second payload for the same sender and id"
+    m = re.match(r"LSigReq (\d+) (\d+)%nat (\d+)%nat (\d+) (\(\d+, \d+\)) \w+ \(OSig", lab)
+    if m:
+        pref = "LSigReq %s %s%%nat %s%%nat %s " % m.group(1, 2, 3, 4)
+        prev = [l for l in h["labels"][:idx] if l.startswith(pref) and "(OSig" in l and not l.startswith(pref + m.group(5))]
+        if prev:
+            what = ("member %s answered signature requests of requester %s for message id %s with valid signatures over two different payloads (%s after %s)"
+                    % (m.group(2), m.group(3), m.group(4), m.group(5), prev[0][len(pref):].split(")")[0] + ")"))
+            dels = collections.defaultdict(set)
+            for l in h["labels"]:
+                d = re.match(r"LMsg (\d+) (\d+)%nat (\d+)%nat (\d+) (\(\d+, \d+\)) .* ODeliver$", l)
+                if d:
+                    dels[d.group(1, 3, 4)].add((d.group(2), d.group(5)))
+            dis = [(k, v) for k, v in dels.items() if len({p for _, p in v}) > 1]
+            if dis:
+                k, v = dis[0]
+                what += "; attack completed: for sender %s, id %s honest members delivered different payloads %s" % (k[1], k[2], sorted(v))
+            return "equivocation:two-payloads-signed", what
     if lab.startswith("LSigReq"):
         return "sign-monitor", "an honest member signed an unregistered id, without a passed check, or a second payload for one (requester, id)"
     return "trace-monitor", "observed trace violates the C13 monitor"
@@ -67,11 +84,12 @@ def main():
         "the adversary is the whole environment of the honest instances: any number of faulty members and non-members may send any request/message to anyone at any time; honest clients are a special case, so client.go enters the theorems only through its local signature (made without the dedup table) and its return value",
         "'honest members sign at most one payload per (requester, id)' is about signatures given in answer to signature requests (requester <> signer); a client's own signature is not deduplicated by the code, which is harmless because a member never delivers its own broadcasts",
         "the application's checkMessage result and anypb UnmarshalNew are inputs (label fields ck, um), not modelled functions; callback errors are not modelled (the callback has been invoked by then)",
+        "the race class (concurrent conflicting signature requests) is a probabilistic detector of non-atomic handlers: the theorems assume handleSigRequest's check-and-store on the dedup table is atomic (one lock acquisition), the harness only samples interleavings; counts are in coverage.race",
         "harness: error classes of refusals are read from the handler's error log line; responses to honest clients are not observed individually (label OSAny) unless the Broadcast succeeded; all faulty members are played by one script (they share what they see)",
     ]
     R.proofs()
     n = 2000 if R.thorough else 200
-    rc, out, od = vp.go_harness("bcast", env_extra={"VERIF_N": n}, timeout=1500)
+    rc, out, od = vp.go_harness("bcast", env_extra={"VERIF_N": n, "VERIF_RACE_IDS": 300 if R.thorough else 150}, timeout=1500)
     if rc != 0:
         R.broke("correspondence:harness bcast failed to run", out[-3000:])
         R.finish()
@@ -105,9 +123,15 @@ def main():
     R.coverage["rule"] = ("scripts over 3..4 (quick) / 3..6 (thorough) libp2p hosts x 2 sessions + an outsider: corpus (F8 relay, pure relay, two broadcasters under one id, "
                           "the repo's own test sequence, cross-session / cross-id replays, outsider) and random compositions of honest broadcasts, complete broadcasts by a scripted "
                           "member with withholding, per-receiver equivocation, signature-list subsets/permutations/substitutions/duplications/wrong lengths, relays, unregistered ids, "
-                          "late registration, malformed payloads; non-trivial = at least one delivery and at least one refusal observed; distinct by hash of the observed label sequence")
+                          "late registration, malformed payloads; race = concurrent conflicting requests over 150 (quick) / 300 (thorough) registered ids per cluster size; non-trivial = at least one delivery and at least one refusal observed; distinct by hash of the observed label sequence")
     R.coverage["input_distribution"] = {"kinds": dict(kinds), "cluster_sizes": dict(sizes), "scripted_members": dict(nfaulty),
                                         "ops": dict(ops), "labels": dict(lkinds), "observations": dict(stats)}
+    if stats.get("race_groups"):
+        R.coverage["race"] = {
+            "what": "probabilistic detector for a non-atomic dedup in handleSigRequest: per registered id and honest receiver, 2-3 signature requests with different payloads on pre-opened streams released together",
+            "groups_raced (receiver x id)": stats["race_groups"], "requests": stats["race_requests"],
+            "groups_in_which_two_payloads_were_signed": stats.get("race_groups_two_payloads_signed", 0),
+            "attacks_completed_to_disagreeing_deliveries": stats.get("race_attacks_completed", 0)}
     R.add_samples([{"script": script_of(h), "labels": h["labels"]} for h in hs if h.get("nontrivial")][:2])
     if notes:
         R.notes.extend(notes[:20])
